@@ -2,7 +2,7 @@
 import ast
 from vstatic import terms as T
 from vstatic.terms import sym, Term, Atom, lift, pretty, TRUE, FALSE, NONE
-from .common import B, agree_ref, selfattr, RECORD_NO_INLINE, dominates
+from .common import B, agree_ref, selfattr, RECORD_NO_INLINE, dominates, component_resets, resets_all_pairs
 from .refs_backend import REF_COLLECT, REF_READ_NEXT_BLOCK
 
 NI = (B + '._read_next_block',)
@@ -187,8 +187,9 @@ def run(ctx):
     ctx.clause = 'D6'
     fb = blk[0]
     for comp in ('digitizer', 'filterbank', 'requantizer'):
-        es = [e for e in I.events if e.kind == 'call' and e.data.get('name') == '._reset_cache' and comp in ast.unparse(e.data['recv_node'])]
-        ctx.ob('MUSTPASS', f'{comp} caches are reset before the first block of every recording', rec, bool(es) and dominates(es[0], fb),
+        es = component_resets(I, comp)
+        ctx.ob('MUSTPASS', f'{comp} caches are reset before the first block of every recording', rec,
+               bool(es) and dominates(es[0], fb) and resets_all_pairs(es[0]),
                {'calls': [e.text() for e in es]}, node=(es[0].node if es else rec.node), construct=f'{comp}._reset_cache()')
     rs = [e for e in I.events if e.kind == 'call' and e.data.get('name') == '.reset_start']
     ctx.ob('MUSTPASS', 'the antenna source is marked start-of-observation before the first block (warm-up window requested)', rec,
